@@ -30,6 +30,8 @@ def gen(rng, tier):
     n = G.budget(60) if tier == 'quick' else 2500
     for _ in range(n):      # eigen-solver cases
         k = rng.randint(2, 8 if tier == 'thorough' else 6)
+        if rng.random() < 0.15:
+            k = rng.randint(17, 20)      # large matrices (code paths that depend on the dimension)
         style = rng.choice(['general', 'stochastic', 'symmetric', 'cyclic'])
         M = [[Fraction(rng.randint(-9, 9), rng.choice([1, 2, 4, 5])) for _ in range(k)] for _ in range(k)]
         if style == 'symmetric':
@@ -45,7 +47,7 @@ def gen(rng, tier):
                 if not sum(Cm[i]):
                     Cm[i][i] = 1
             M = [[Fraction(c, sum(r)) for c in r] for r in Cm]
-        yield {'k': 'eig', 'M': [[str(x) for x in r] for r in M], 'nvals': rng.choice([None, None, 1, rng.randint(1, k)]), 'style': style}
+        yield {'k': 'eig', 'M': [[str(x) for x in r] for r in M], 'nvals': rng.choice([None, None, 1, rng.randint(1, k), rng.randint(2, max(2, k // 2))]), 'style': style}
     for _ in range(n):      # implied timescales
         k = rng.randint(2, 5)
         labs, akind = G.alphabet(rng, k=k)
@@ -199,7 +201,11 @@ def judge(case, ibc, answers):
             tol = Fraction(1, 10**9) * 4
             oks, desc, tr, sre, sim = _pairs_ok(T, True, vals, vecs, tol)
             if not all(oks) or not desc:
-                continue        # solver output not validated: no oracle for this row
+                # the eigen-solver itself returned something that is not an eigen-decomposition of the model
+                # matrix (this call comes AFTER implied_timescales in the same process, on the same matrix)
+                P('impl-vs-spec', 'lag %d: left_eigenvectors(T) after implied_timescales returns invalid or unordered '
+                  'eigen-pairs: values %s' % (lag, [[float(x) for x in v] for v in vals][:4]))
+                continue
             classes = C.Reader(C.mrun([[1002, len(vals)] + [x for v in vals for x in C.eQ(v[0]) + C.eQ(v[1])]])[0]).Zs()
             got = r['its'][li]
             for k in range(nts):
